@@ -51,7 +51,11 @@ CONSTANTS
     MaxIters,   \* set of max_iter values
     LCM,        \* common multiple of 1..MaxN
     Replay,     \* TRUE: print one REPLAY line per terminal state
-    ShowEmpty   \* TRUE: print one INFO line per state in which an assignment step left a cluster empty
+    ShowEmpty,  \* TRUE: print one INFO line per state in which an assignment step left a cluster empty
+    ShowSwap,   \* TRUE: print one INFO line per state in which a sweep exchanged members of a cluster
+                \*   without changing its count or the total of its coordinate sums
+    RowSum      \* > 0: only rows whose coordinates add up to RowSum ("composition" data: integer points
+                \*   of a simplex layer, anti-diagonals); 0: no restriction
 
 ASSUME \A m \in 1..MaxN : LCM % m = 0
 
@@ -173,6 +177,7 @@ Init ==
     /\ maxIter \in MaxIters
     /\ \E n \in 2..MaxN : data \in [1..n -> Point]
     /\ \A i \in 1..(Len(data) - 1) : LexLeq(data[i], data[i + 1], 1)   \* rows in canonical order
+    /\ RowSum > 0 => \A i \in 1..Len(data) : SumTo(data[i], Dim) = RowSum
     /\ Distinct(data) >= k                       \* the domain of the property
     /\ pc = "seed0" /\ j = 0 /\ cur = 0
     /\ dmin = [i \in 1..Len(data) |-> -1]
@@ -221,6 +226,25 @@ Bounded == it <= maxIter /\ (Done => it >= 1)
 SomeEmpty == pc \in {"update", "done"} /\ \E c \in 1..k : size[c] = 0
 EmitEmpty ==
     (ShowEmpty /\ SomeEmpty) =>
+        PrintT(<<"INFO", ToJson([X |-> data, k |-> k, it |-> it, y |-> y])>>)
+
+(***************************************************************************)
+(* A sweep (not the first) can move rows in and out of a cluster while its *)
+(* count AND the total of all its coordinate sums stay the same -- on data *)
+(* whose rows all have the same coordinate total (compositions) every      *)
+(* equal-count exchange does.  Any shortcut that decides "this cluster did *)
+(* not change" from such a fingerprint leaves a stale centroid behind.     *)
+(* At pc = "update", cnum / cden still hold the sums / sizes of the        *)
+(* previous sweep for every cluster that had members.  ShowSwap lists the  *)
+(* data sets where this happens; the harness refits them many times.       *)
+(***************************************************************************)
+SwapSeen ==
+    /\ pc = "update" /\ it >= 2
+    /\ \E c \in 1..k : /\ size[c] > 0 /\ size[c] = cden[c]
+                       /\ SumTo(sums[c], Dim) = SumTo(cnum[c], Dim)
+                       /\ sums[c] # cnum[c]
+EmitSwap ==
+    (ShowSwap /\ SwapSeen) =>
         PrintT(<<"INFO", ToJson([X |-> data, k |-> k, it |-> it, y |-> y])>>)
 
 Emit ==
